@@ -20,6 +20,7 @@ def run(ctx):
                                  "(by key bytes) of the frame's set; a refused response must leave the full state digest (known events, last "
                                  "events and roots, blocks with signatures, peer sets, rounds, hashgraph scalars, head/seq, validators, peers, "
                                  "pools) and the application's Restore log unchanged; a panic is a violation.")
-    if res["rule"] not in ("current", "fixed"):
-        ctx["notes"].append("partially repaired tree detected: rule switches dedupe/known/guard/check-first = " + res["rule"])
-    return dict(findings=findings, coverage=cov, corr_diffs=res["diffs"][:10])
+    if res["rule"] != ffcommon.REQUIRED_RULE:
+        ctx["notes"].append("the tree does not implement the repaired fast-sync rule: detected %s, missing: %s"
+                            % (res["rule"], ", ".join(res.get("lost_repairs", []))))
+    return dict(findings=findings, coverage=cov, corr_diffs=res["diffs"][:12])
